@@ -101,22 +101,21 @@ package gpbft
 //@ func scalePower
 //@   property C08
 //@   requires total > 0 && power >= 0
-//@   ensures power <= total ==> result1 == nil && 0 <= result0 && result0 <= 65535
-//@        && result0*total <= 65535*power && 65535*power < (result0+1)*total
+//@   ensures power <= total ==> result1 == nil && scaledOK(result0, power, total)
 //@   ensures power > total ==> result1 != nil
 //@   nooverflow
 //@   pure
 
 //@ spec func sumPow(p PowerEntries, n mathint) mathint
 //@ pred sumPowDef(p PowerEntries) = sumPow(p, 0) == 0 && forall(n, 0, len(p), sumPow(p, n+1) == sumPow(p, n) + p[n].Power, trigger(p[n]))
-//@ pred scaledOK(s mathint, pw mathint, T mathint) = 0 <= s && s <= 65535 && s*T <= 65535*pw && 65535*pw < (s+1)*T
+//@ pred opaque scaledOK(s mathint, pw mathint, T mathint) = 0 <= s && s <= 65535 && s*T <= 65535*pw && 65535*pw < (s+1)*T
 
 //@ func (PowerEntries).Scaled
 //@   property C08
 //@   requires sumPowDef(p)
 //@   ensures forall(i, 0, len(p), p[i].Power > 0) ==> err == nil
 //@   ensures err == nil ==> len(scaled) == len(p) && 0 <= total && total <= 65535
-//@   ensures err == nil ==> forall(i, 0, len(p), scaledOK(scaled[i], p[i].Power, sumPow(p, len(p))))
+//@   ensures err == nil ==> forall(i, 0, len(p), scaledOK(scaled[i], p[i].Power, sumPow(p, len(p))), trigger(scaled[i]))
 //@   nooverflow
 //@   loop 1
 //@     invariant totalUnscaled == sumPow(p, iter) && totalUnscaled >= 0
@@ -127,7 +126,7 @@ package gpbft
 //@     invariant forall(j, 0, len(p), p[j].Power > 0 && p[j].Power <= totalUnscaled)
 //@     invariant forall(n, 0, len(p)+1, 0 <= sumPow(p, n) && sumPow(p, n) <= totalUnscaled, trigger(sumPow(p, n)))
 //@     invariant (iter == 0 ==> total == 0) && 0 <= total && total*totalUnscaled <= 65535*sumPow(p, iter)
-//@     invariant forall(j, 0, iter, scaledOK(scaled[j], p[j].Power, totalUnscaled))
+//@     invariant forall(j, 0, iter, scaledOK(scaled[j], p[j].Power, totalUnscaled), trigger(scaled[j]))
 
 //@ pred ptSums(p *PowerTable) = sumPowDef(p.Entries) && p.Total == sumPow(p.Entries, len(p.Entries))
 //@     && len(p.ScaledPower) == len(p.Entries)
@@ -137,17 +136,18 @@ package gpbft
 
 //@ func (*PowerTable).rescale
 //@   property C08
+//@   hide scaledOK ensures:3, loop-preserve:1:4
 //@   requires ptSums(p)
 //@   requires len(p.Entries) > 0
 //@   modifies p.ScaledTotal, p.ScaledPower[]
 //@   ensures result == nil
 //@   ensures 0 <= p.ScaledTotal && p.ScaledTotal <= 65535
-//@   ensures forall(i, 0, len(p.Entries), scaledOK(p.ScaledPower[i], p.Entries[i].Power, p.Total))
+//@   ensures forall(i, 0, len(p.Entries), scaledOK(p.ScaledPower[i], p.Entries[i].Power, p.Total), trigger(p.ScaledPower[i]))
 //@   nooverflow
 //@   loop 1
 //@     invariant ptSums(p) && p.Entries == old(p.Entries) && p.ScaledPower == old(p.ScaledPower) && p.Total == old(p.Total)
 //@     invariant (iter == 0 ==> p.ScaledTotal == 0) && 0 <= p.ScaledTotal && p.ScaledTotal*p.Total <= 65535*sumPow(p.Entries, iter)
-//@     invariant forall(j, 0, iter, scaledOK(p.ScaledPower[j], p.Entries[j].Power, p.Total))
+//@     invariant forall(j, 0, iter, scaledOK(p.ScaledPower[j], p.Entries[j].Power, p.Total), trigger(p.ScaledPower[j]))
 
 //@ lemma scaling_is_order_preserving_and_agrees
 //@   property C08
